@@ -161,14 +161,23 @@ def prefetch_to_device(iterator, size, devices=None):
     # jax.device_put_sharded was removed from newer JAX versions.
     return _stack_on_devices(list(xs), devices)
 
+  error = []
+
   def enqueue(n):  # Enqueues *up to* `n` elements from the iterator.
-    for data in itertools.islice(iterator, n):
-      queue.append(jax.tree_util.tree_map(_prefetch, data))
+    try:
+      for data in itertools.islice(iterator, n):
+        queue.append(jax.tree_util.tree_map(_prefetch, data))
+    except Exception as e:  # pylint: disable=broad-except
+      # Deliver the batches that were already prefetched before re-raising.
+      error.append(e)
 
   enqueue(size)  # Fill up the buffer.
   while queue:
     yield queue.popleft()
-    enqueue(1)
+    if not error:
+      enqueue(1)
+  if error:
+    raise error[0]
 
 
 def _scan_nd(body_fn, init, xs, n=1, unroll=(1,)):
